@@ -737,7 +737,8 @@ def run_generic(ctx, pid, profile, proj, servers, n_quick, n_thorough, length, e
 
 def queue_sessions(ctx, t, n):
     rng = ctx.rng
-    out = []
+    # targeted: Prepare Write to a CCCD (known finding C01:crash:prepare-write-to-cccd)
+    out = [("Q1", ["reset Q1", "pdu 0 23 160300000001", "pdu 1 23 1604000000"])]
     for i in range(n):
         name = QUEUE_SERVERS[i % 2]
         tt = t[name]
@@ -876,11 +877,12 @@ COMMON = dict(level="proof",
 T = "BluetoeModel.AttAccess."
 PROPS = {
     "C01": dict(COMMON,
-                theorems=[T + "step_len_le_mtu", T + "step_framing_partial", T + "step_silent"],
+                theorems=[T + "step_len_le_mtu", T + "step_framing_partial", T + "step_silent", T + "step_no_oob_read"],
+                imports=["BluetoeModel.AttAccess.Props", "BluetoeModel.AttAccess.Safety"],
                 witnesses=[T + "step_framing_full_witness"],
                 run=run_c01, design_ref="§5 C01",
                 level_text="For every server table without gaps, every memory/connection state and every non-empty PDU the model of l2cap_input never returns more than min(out_size, negotiated MTU) bytes and answers every request with its response opcode or an Error Response naming it; tied to the code by differential runs on 14 real server types (+2 write-queue servers on the real code only).",
-                level_note="Memory safety itself (the model's explicit out-of-bounds / assert results are never produced) is NOT proved in Lean (step_no_oob missing); it rests on ASan/UBSan over exactly-sized heap buffers on the real code plus the correspondence (a model run that takes such a branch prints MODEL-OOB-* and disagrees). Full framing statement is false of the code (unknown commands / 0x1B / malformed 0x1E are answered, pinned by tests): witness theorem + partial theorem + known findings."),
+                level_note="Input side of memory safety is proved (step_no_oob_read: no read outside the PDU). The output / value-memory side (the model's explicit oobWrite / assertFail / Rc.oob results are never produced for well-formed tables) is NOT proved in Lean; it rests on ASan/UBSan over exactly-sized heap buffers on the real code plus the correspondence (a model run that takes such a branch prints MODEL-OOB-* and disagrees). Full framing statement is false of the code (unknown commands / 0x1B / malformed 0x1E are answered, pinned by tests): witness theorem + partial theorem + known findings."),
     "C08": dict(COMMON,
                 theorems=[T + "mtu_after_history", T + "invalid_exchange_rejected", T + "response_le_negotiated", T + "notification_le_negotiated"],
                 witnesses=[T + "notification_unfixed_witness"],
